@@ -234,6 +234,7 @@ pub fn cmd_sched(m: &HashMap<String, String>) -> i32 {
     let replay_dir = m.get("replay-dir").cloned().unwrap_or_else(|| "/verif/replays".to_string());
     let property = m.get("property").cloned().unwrap_or_else(|| if focus == "wnaf" { "C02".into() } else { "C20".into() });
     let cfg = gen_cfg(m, &focus);
+    crate::ops::CLAIMS_ENABLED.store(focus == "wnaf", std::sync::atomic::Ordering::Relaxed);
     let selfcheck = m.contains_key("selfcheck");
     let t0 = Instant::now();
     let deadline = if secs > 0 { Some(t0 + Duration::from_secs(secs)) } else { None };
@@ -423,6 +424,7 @@ pub fn replay(path: &str, j: &J, quiet: bool) -> i32 {
         Err(e) => harness_error(&format!("{}: {}", path, e)),
     };
     let cfg = j.get("gen_cfg").map(cfg_from).unwrap_or_else(|| cfg_from(&J::obj()));
+    crate::ops::CLAIMS_ENABLED.store(plan.focus == "wnaf", std::sync::atomic::Ordering::Relaxed);
     let seed = j.get("seed").and_then(|s| s.as_i64()).unwrap_or(1) as u64;
     let want = j
         .get("violation")
